@@ -62,3 +62,96 @@ func TestC11Wedge(t *testing.T) {
 		}
 	})
 }
+
+func c11HistoryOpts() lab.GenOpts {
+	return lab.GenOpts{
+		Engines: []string{"v1", "v2"}, MaxSources: 2, MaxDests: 2, MaxRecords: 10, MaxProcs: 1,
+		Filters: true, ProcErrors: true, UnlimitedDLQ: true, ReadFaults: true, StreamErrs: true,
+		MaxRetries: []int64{0, 1, 2},
+	}
+}
+
+// TestC11History: histories of Start/Stop/StopAndWait/StopAll/Wait/force stop, one call at a time per pipeline
+// (waits may overlap), with every status write's return scheduled like a plugin completion.
+func TestC11History(t *testing.T) {
+	st := pbt.For("C11")
+	defer st.Finish(t)
+	opts := c11HistoryOpts()
+	kinds := []string{"stop", "stop", "stopandwait", "stopwait", "start", "start", "start", "wait", "stopall", "forcestop"}
+	rapid.Check(t, func(t *rapid.T) {
+		c := lab.GenCase(t, opts)
+		c.GateStatus = lab.Chance(t, "gatestatus", 75)
+		n := rapid.IntRange(2, 6).Draw(t, "ncalls")
+		step := 0
+		total := c.TotalRecords()
+		for i := 0; i < n; i++ {
+			step += rapid.IntRange(0, total/2+4).Draw(t, "gap")
+			c.Client = append(c.Client, lab.ClientAction{Kind: kinds[lab.Uniform(t, "call", len(kinds))], AtStep: step})
+		}
+		if c.Engine == "v1" && c.Recovery.MaxRetries > 0 && st.IsKnown("C11/two-live-runs/v1/start-during-recovery") {
+			// known finding: a user Start during the default engine's recovery back-off races the
+			// recovery's own restart; keep the search going behind it
+			for i := range c.Client {
+				if c.Client[i].Kind == "start" {
+					c.Client[i].Kind = "wait"
+					st.Exclude("C11/two-live-runs/v1/start-during-recovery")
+				}
+			}
+		}
+		res, m, h := runLab(t, "C11", c)
+		if res.ProvisionErr != nil {
+			t.Fatalf("provision: %v", res.ProvisionErr)
+		}
+		// non-trivial: a control call was issued while a status write of some run was in flight
+		// (between status.begin and the release of its return), or during recovery
+		inWindow := false
+		pendingStatus := 0
+		for _, e := range res.Events {
+			switch e.Kind {
+			case lab.EvStatusBegin:
+				pendingStatus++
+			case lab.EvStatus:
+				// the write returned to the engine only when the scheduler released it; approximated by the log
+				pendingStatus--
+			case lab.EvCtlCall:
+				if pendingStatus > 0 {
+					inWindow = true
+				}
+			}
+		}
+		f := factsOf(res, m)
+		nontrivial := len(res.Ctl) >= 3 && (inWindow || f.Restarts > 0 || c.GateStatus)
+		cls := append(labClasses(res), "part=history")
+		if c.GateStatus {
+			cls = append(cls, "status-writes-gated")
+		}
+		if inWindow {
+			cls = append(cls, "call-during-status-write")
+		}
+		for _, cr := range res.Ctl {
+			if cr.Kind != "start" || cr != res.Ctl[0] {
+				ok := "ok"
+				if cr.Err != "" {
+					ok = "err"
+				}
+				cls = append(cls, "ctl:"+cr.Kind+"="+ok)
+			}
+		}
+		if res.Inconclusive != "" {
+			st.Inconcl(res.Inconclusive)
+		}
+		st.Case(pbt.Hash(c), nontrivial, cls...)
+		if nontrivial && st.WantSample() {
+			st.Sample(map[string]any{"case": c, "history_tail": historyLines(tail(res.Events, 40))})
+		}
+		vs := h.CheckC11Control(res)
+		if !c.HasHold() {
+			w := lab.CheckWedge(res)
+			if len(w) > 0 {
+				res.Events = append(res.Events, lab.Event{Kind: lab.EvNote, Src: -1, Seq: -1, Info: "STACKS:\n" + res.Stacks})
+			}
+			vs = append(vs, w...)
+		}
+		failOn(t, st, res, vs)
+	})
+}
